@@ -228,6 +228,7 @@ type World struct {
 	Cycles          []CycleScript   `json:"cycles"`
 	// raw extra objects (hostile worlds)
 	ExtraBindRequests []RawBindRequest `json:"extraBindRequests,omitempty"`
+	Family            string           `json:"family,omitempty"` // C05 clause (b): reclaim | preempt
 }
 
 type RawBindRequest struct {
